@@ -18,7 +18,7 @@ from vp import core, gen, progs
 CORPUS = os.path.join(core.VERIF_DIR, "corpus", "pinned.json")
 
 
-def _seg(p, root, store_kind, store_dir, entry_opts=None, options=None, pre=(), style="eval", chdir=None, post_same=False, edit_revert=None):
+def _seg(p, root, store_kind, store_dir, entry_opts=None, options=None, pre=(), style="eval", chdir=None, post_same=False, edit_revert=None, in_thread=False):
     steps = []
     accept = [p["pkg"]] + gen.lazy_modules(p)
     for q in pre:
@@ -32,6 +32,9 @@ def _seg(p, root, store_kind, store_dir, entry_opts=None, options=None, pre=(), 
         steps.append({"write": gen.render(p), "how": "import", "modules": gen.import_order(p), "lazy_modules": gen.lazy_modules(p), "entry": _entry(p, style, entry_opts)})
     if post_same:
         steps.append({"how": "none", "entry": _entry(p, style, entry_opts)})
+    if in_thread:
+        for st in steps:
+            st["entry"]["in_thread"] = True
     return {"mode": "impl", "root": root, "accept": accept, "steps": steps, "store": {"kind": store_kind, "dir": store_dir}, "options": options or {}, "chdir": chdir}
 
 
@@ -118,6 +121,13 @@ def program_job(arg):
             # another function of the same program was evaluated before (same process, same store)
             add("after_alternative_entry_same_store", _seg(p, R, "local", sd("alt"), pre=[dict(p, entry=p["_alt_entry"])]))
         add("second_evaluation_same_process", _seg(p, R, "local", sd("twice"), post_same=True))
+        # the evaluation runs in a thread other than the one that configured dds (store, options, accepted modules)
+        add("worker_thread", _seg(p, R, "local", sd("thr"), in_thread=True))
+        # the same with non-default values of the options that decide what is tracked (a group of its own: these
+        # options legitimately change signatures, so its members are compared with each other, not with the base run)
+        oo = {"accept_list": False, "accept_dict": False, "hash.max_sequence_size": 1000}
+        add("opts:base", _seg(p, R, "local", sd("ob"), options=oo))
+        add("opts:worker_thread", _seg(p, R, "local", sd("ot"), options=oo, in_thread=True))
         for k in ((1, 3) if tier == "quick" else (1, 3, 8)):
             add("after_%d_other_evaluations" % k, _seg(p, R, "local", sd("pre%d" % k), pre=others[:k]))
         pe, _ = gen.e_set_const(p, p["entry"])
@@ -132,6 +142,7 @@ def program_job(arg):
         fix["cwd=pkgdir"][1]["chdir"] = R
         results = [run_variant(v) for v in variants]
     base = None
+    grp = {}
     for name, err, m in results:
         rep.count("variants_run")
         if err:
@@ -139,8 +150,20 @@ def program_job(arg):
             continue
         if name == "base":
             base = m
+        if name.startswith("opts:"):
+            grp[name] = m
     if base is None:
         return rep
+    # the group evaluated under non-default options: same outcome and same signatures within the group
+    results = [r for r in results if not r[0].startswith("opts:")]
+    if len(grp) == 2:
+        rep.count("map_comparisons")
+        rep.bump("variant", "opts:worker_thread")
+        ga, gb = grp["opts:base"], grp["opts:worker_thread"]
+        if ga.get("refused") != gb.get("refused") or ga["all_paths"] != gb["all_paths"] or ga["sync"] != gb["sync"]:
+            diff = sorted(k for k in set(ga["all_paths"]) | set(gb["all_paths"]) if ga["all_paths"].get(k) != gb["all_paths"].get(k))
+            rep.violate("program %d (%s): with non-default options, the evaluation in a worker thread differs from the one in the configuring thread (refused: %r / %r; paths %r)"
+                        % (idx, p["pkg"], gb.get("refused"), ga.get("refused"), diff[:4]), {"program": p, "variant": "opts:worker_thread", "base": ga, "got": gb}, mechanism="variant:opts:worker_thread")
     if base.get("refused") or any(m and m.get("refused") for _, _, m in results):
         # a program that dds refuses (coded error): refused in the same way in every environment, or accepted in none
         rep.evaluations = len(results)
